@@ -80,6 +80,8 @@ where
             // err might be a different error so match again
             return Poll::Ready(Err(self.convert_to_connection_error(err)));
         }
+        #[cfg(hyperium_h3_verif)]
+        crate::verif_hooks::preempt("driver:between_error_check_and_waker_registration");
         self.waker().register(cx.waker());
         Poll::Pending
     }
